@@ -419,7 +419,7 @@ def evaluate__cast_expressions(self: XPathToken, context: ta.ContextType = None)
     try:
         if namespace != XSD_NAMESPACE:
             if self.parser.schema is not None:
-                value = self.parser.schema.cast_as(self.string_value(arg), atomic_type)
+                value = self.parser.schema.cast_as(self.atomic_string_value(arg), atomic_type)
             else:
                 value = []
         else:
